@@ -12,6 +12,7 @@
 #include <functional>
 #include <linux/futex.h>
 #include <pthread.h>
+#include <sched.h>
 #include <sys/syscall.h>
 #include <unistd.h>
 #include <vector>
@@ -81,14 +82,18 @@ public:
 
     // ---- worker side ---------------------------------------------------
     static thread_local int tl_id;
+    static thread_local bool tl_active;  // inside a scheduled body (instrumentation hooks must stay quiet elsewhere)
+    static thread_local bool tl_busy;    // inside point(): the thread may already have released the turn
     static Sched * current;
     void point()
     {
         int i = tl_id;
         if (i < 0) return;  // the explorer thread itself (sequential reference runs)
+        tl_busy = true;      // instrumentation hooks stay quiet while the turn is being handed over
         m_state[i] = AT_POINT;
         give(MAIN);
         wait_turn(i);
+        tl_busy = false;
     }
 
 private:
@@ -110,7 +115,9 @@ private:
             if (m_quit) {
                 return;
             }
+            tl_active = true;   // from here to the end of the body this thread holds the turn whenever it runs
             body(i);
+            tl_active = false;
             m_state[i] = FINISHED;
             give(MAIN);
         }
@@ -122,9 +129,16 @@ private:
     }
     void wait_turn(int me)
     {
-        for (int spin = 0; spin < 2000; ++spin) {
+        // hand-offs are answered within a few microseconds when the other thread is on a core of its own: spin briefly,
+        // then yield the core a number of times (keeps many explorer processes on one machine from starving each other),
+        // then sleep on the futex
+        for (int spin = 0; spin < 400; ++spin) {
             if (m_turn.load(std::memory_order_seq_cst) == me) return;
             __builtin_ia32_pause();
+        }
+        for (int y = 0; y < 60; ++y) {
+            if (m_turn.load(std::memory_order_seq_cst) == me) return;
+            sched_yield();
         }
         for (;;) {
             int cur = m_turn.load(std::memory_order_seq_cst);
@@ -141,6 +155,8 @@ private:
     std::vector<pthread_t> m_threads;
 };
 inline thread_local int Sched::tl_id = -1;
+inline thread_local bool Sched::tl_active = false;
+inline thread_local bool Sched::tl_busy = false;
 inline Sched * Sched::current = nullptr;
 
 // One completed execution: the decision points and what was chosen.
